@@ -294,6 +294,7 @@ package lib
 //@ func (r *RegisteredDecoys) TotalRegistrations() int
 //@   requires r != nil && !held(&r.m) && rheld(&r.m) == 0
 //@   ensures @C09: !held(&r.m) && rheld(&r.m) == 0
+//@   assigns rheld(&r.m), acq(&r.m)
 
 // C08 "never early": every index listed as expired belongs to a record whose age exceeds the lifetime of its state
 // (10 min while unused, 6 h in any case); the ghost clock can only advance, so it stays expired.
@@ -441,9 +442,12 @@ package lib
 //@   neverreads @C17: DecoyRegistration.registrationAddr
 //@   assigns nothing
 //@   trusted
+// (C19: preserves the representation invariant of the statistics tables the reporters rely on - verified, see statsWF)
 //@ func (s *RegistrationStats) AddRegStats(reg *DecoyRegistration)
-//@   assigns memory
-//@   trusted
+//@   requires @SAFETY: statsWF(s) && reg != nil && reg.RegistrationSource != nil && !held(&s.genMutex) && !held(&s.lvMutex) && !held(&s.ttMutex) && rheld(&s.genMutex) == 0 && rheld(&s.lvMutex) == 0 && rheld(&s.ttMutex) == 0
+//@   ensures @C19: statsWF(s)
+//@   assigns memory, acq, held(&s.genMutex), held(&s.lvMutex), held(&s.ttMutex)
+//@   checks safety
 //@ func handleConnectingTpReg(regManager *RegistrationManager, reg *DecoyRegistration, logger *log.Logger)
 //@   assigns memory
 //@   trusted
@@ -632,3 +636,55 @@ package lib
 //@   ensures @C01: (t in rm.registeredDecoys.transports) && (libVer < 3 || !supportsRandom) ==> result0 == 443 && result1 == nil
 //@   ensures @C01: !(t in rm.registeredDecoys.transports) ==> result1 != nil
 //@   assigns nothing
+
+// ---------------- C19: periodic statistics reporting never panics ----------------
+// Representation invariant of the registration statistics: the three per-key tables exist and hold no nil record
+// (the reporters dereference every record; AddRegStats stores into the tables). Established by the constructor and
+// by Reset, preserved by AddRegStats and by the reporters.
+//@ define statsWF(s *RegistrationStats) bool = s != nil && s.generations != nil && s.ttStats != nil && s.lvStats != nil && (forall g uint32 :: g in s.generations ==> s.generations[g] != nil) && (forall t pb.TransportType :: t in s.ttStats ==> s.ttStats[t] != nil) && (forall v uint32 :: v in s.lvStats ==> s.lvStats[v] != nil)
+//@ func newRegistrationStats() *RegistrationStats
+//@   ensures @C19: statsWF(result)
+//@   checks safety
+//@ func (s *RegistrationStats) Reset()
+//@   requires s != nil && !held(&s.genMutex) && !held(&s.lvMutex) && !held(&s.ttMutex) && rheld(&s.genMutex) == 0 && rheld(&s.lvMutex) == 0 && rheld(&s.ttMutex) == 0
+//@   ensures @C19: statsWF(s)
+//@   assigns obj(s), now(), acq, held(&s.genMutex), held(&s.lvMutex), held(&s.ttMutex)
+//@   checks safety
+//@ func (s *RegistrationStats) PrintAndReset(logger *log.Logger)
+//@   requires statsWF(s) && logger != nil && !held(&s.genMutex) && !held(&s.lvMutex) && !held(&s.ttMutex) && rheld(&s.genMutex) == 0 && rheld(&s.lvMutex) == 0 && rheld(&s.ttMutex) == 0
+//@   ensures @C19: statsWF(s)
+//@   checks safety
+// (the three per-key report loops, each inside its read-locked section)
+//@ func (s *RegistrationStats) PrintAndReset$1()
+//@ loop 1:
+//@   invariant statsWF(s) && logger != nil && s.generations == old(s.generations) && s.ttStats == old(s.ttStats) && s.lvStats == old(s.lvStats)
+//@ func (s *RegistrationStats) PrintAndReset$2()
+//@ loop 1:
+//@   invariant statsWF(s) && logger != nil && s.generations == old(s.generations) && s.ttStats == old(s.ttStats) && s.lvStats == old(s.lvStats)
+//@ func (s *RegistrationStats) PrintAndReset$3()
+//@ loop 1:
+//@   invariant statsWF(s) && logger != nil && s.generations == old(s.generations) && s.ttStats == old(s.ttStats) && s.lvStats == old(s.lvStats)
+// the registration manager's own reporter (it overrides the embedded one to add the registry size)
+//@ func (s *RegistrationManager) PrintAndReset(logger *log.Logger)
+//@   requires s != nil && statsWF(s.RegistrationStats) && !sameobj(s, s.RegistrationStats) && logger != nil && s.registeredDecoys != nil && !held(&s.registeredDecoys.m) && rheld(&s.registeredDecoys.m) == 0
+//@   requires !held(&s.RegistrationStats.genMutex) && !held(&s.RegistrationStats.lvMutex) && !held(&s.RegistrationStats.ttMutex) && rheld(&s.RegistrationStats.genMutex) == 0 && rheld(&s.RegistrationStats.lvMutex) == 0 && rheld(&s.RegistrationStats.ttMutex) == 0
+//@   ensures @C19: statsWF(s.RegistrationStats)
+//@   checks safety
+//@ func (s *RegistrationManager) PrintAndReset$1()
+//@ loop 1:
+//@   invariant s != nil && statsWF(s.RegistrationStats) && logger != nil && s.RegistrationStats == old(s.RegistrationStats) && s.RegistrationStats.generations == old(s.RegistrationStats.generations) && s.RegistrationStats.ttStats == old(s.RegistrationStats.ttStats) && s.RegistrationStats.lvStats == old(s.RegistrationStats.lvStats) && s.registeredDecoys == old(s.registeredDecoys)
+//@ func (s *RegistrationManager) PrintAndReset$2()
+//@ loop 1:
+//@   invariant s != nil && statsWF(s.RegistrationStats) && logger != nil && s.RegistrationStats == old(s.RegistrationStats) && s.RegistrationStats.generations == old(s.RegistrationStats.generations) && s.RegistrationStats.ttStats == old(s.RegistrationStats.ttStats) && s.RegistrationStats.lvStats == old(s.RegistrationStats.lvStats) && s.registeredDecoys == old(s.registeredDecoys)
+//@ func (s *RegistrationManager) PrintAndReset$3()
+//@ loop 1:
+//@   invariant s != nil && statsWF(s.RegistrationStats) && logger != nil && s.RegistrationStats == old(s.RegistrationStats) && s.RegistrationStats.generations == old(s.RegistrationStats.generations) && s.RegistrationStats.ttStats == old(s.RegistrationStats.ttStats) && s.RegistrationStats.lvStats == old(s.RegistrationStats.lvStats) && s.registeredDecoys == old(s.registeredDecoys)
+// the other periodic reporters of the station library: counters only
+//@ func (s *ProxyStats) PrintAndReset(logger *log.Logger)
+//@   requires s != nil && logger != nil
+//@   ensures @C19: true
+//@   checks safety
+//@ func (zi *ZMQIngester) PrintAndReset(logger *log.Logger)
+//@   requires zi != nil && logger != nil
+//@   ensures @C19: true
+//@   checks safety
